@@ -155,7 +155,10 @@ Proof.
 Qed.
 Lemma py_eval_LDict : forall o items trailing,
   py_eval o (LDict items trailing) =
-  match eval_ditems o items with Some kvs => Some (build_dict kvs) | None => None end.
+  match eval_ditems o items with
+  | Some kvs => if keys_hashable kvs then Some (build_dict kvs) else None
+  | None => None
+  end.
 Proof.
   intros o items trailing. cbn [py_eval].
   match goal with |- context [?F items] =>
@@ -582,11 +585,12 @@ Lemma container_parse : forall o wb open_ close lay n body trin tr rest f vals p
      pv_loop f o wb close (String.eqb open_ "{") fuel (body ++ op_tok close :: R) [] [] false
      = POk (vals, pairs, sc, op_tok close :: R)) ->
   container_value open_ vals pairs sc = v ->
+  String.eqb open_ "{" && negb (keys_hashable pairs) = false ->
   parse_value (S f) o wb (([op_tok open_] ++ lay n ++ body ++ [op_tok close] ++ trin) ++ tr ++ rest)
   = POk (v, rest).
 Proof.
   intros o wb open_ close lay n body trin tr rest f vals pairs sc v
-         Hcl Hlay Htrin Htr Hrest Hshape Hloop Hv.
+         Hcl Hlay Htrin Htr Hrest Hshape Hloop Hv Hh.
   norm.
   rewrite (parse_value_container f o wb _ close); [|exact Hcl].
   assert (Hadv : forall Z, advance wb (op_tok open_ :: lay n ++ body ++ op_tok close :: Z)
@@ -600,7 +604,7 @@ Proof.
   destruct Hrest as [t0 [r0 [-> Hf0]]].
   rewrite app_assoc.
   rewrite advance_solid; [| apply Forall_app; split; assumption | apply follow_solid; exact Hf0].
-  rewrite Hv. reflexivity.
+  rewrite Hh, Hv. reflexivity.
 Qed.
 
 Lemma eval_items_length : forall o items vs, eval_items o items = Some vs -> List.length vs = List.length items.
@@ -782,7 +786,8 @@ Proof.
     unfold P. intros wb lay n inside toks n' v tr rest fuel Hlay Hwf Hev Hr Hok Htr Hrest Hfuel.
     rewrite render_LDict in Hr. destruct (render_ditems lay trailing items (S n)) as [body n1] eqn:Hb.
     injection Hr as <- <-. rewrite py_eval_LDict in Hev.
-    destruct (eval_ditems o items) as [kvs|] eqn:Evs; [|discriminate]. injection Hev as <-.
+    destruct (eval_ditems o items) as [kvs|] eqn:Evs; [|discriminate].
+    destruct (keys_hashable kvs) eqn:Hhash; [|discriminate]. injection Hev as <-.
     apply lit_wf_LDict in Hwf.
     assert (Hokb : Forall tok_ok body).
     { exact (body_ok _ _ _ _ _ Hok). }
@@ -796,6 +801,7 @@ Proof.
     + destruct (render_ditems_shape _ _ _ _ _ _ _ Hwf Hb Hokb) as [[_ E]|[_ E]]; [left|right]; exact E.
     + intros fuel R Hf. apply (loop_ditems o f wb lay trailing Hlay) with (n := S n) (n1 := n1); try assumption.
       pose proof (render_ditems_length _ _ _ _ _ _ _ Hwf Hb Hokb). lia.
+    + cbn [app]. rewrite Hhash. reflexivity.
 Qed.
 
 (* ------------------------------------------------------------------ *)
